@@ -131,3 +131,36 @@ void h_subsuper_cycle2(void)
 {
     for (int a0 = 0; a0 < 4; a0++) for (int a1 = 0; a1 < 4; a1++) for (int s0 = 0; s0 < 4; s0++) for (int s1 = 0; s1 < 4; s1++) check_cycle2(a0, a1, s0, s1);
 }
+
+/* C04 (bad INVERSE): `INVERSE v : [SET OF] ent FOR name` is rejected with an ERROR-class diagnostic unless `ent` is an entity
+ * and `name` is an attribute of it (declared or inherited); an attribute of one of ent's subtypes does not count.
+ * C20: the diagnostic names the attribute and the entity. */
+void h_inverse(void)
+{
+    IN(int, in_shape);      /* 0: ent, 1: SET OF ent, 2: a non-entity type */
+    IN(int, in_where);      /* ghost: 1 = name is an attribute of ent or an ancestor, 2 = only of a subtype, 0 = nowhere */
+    static struct Scope_ t_ent, t_agg, t_int, ent; static struct TypeHead_ h_ent, h_agg, h_int; static struct TypeBody_ b_ent, b_agg, b_int;
+    static struct Variable_ v; static struct Expression_ vname; static struct Symbol_ isym; static char n_inv[5] = "item", n_ent[6] = "owner", n_v[7] = "owners";
+    __CPROVER_assume(in_shape >= 0 && in_shape <= 2 && in_where >= 0 && in_where <= 2);
+    ent.symbol.name = n_ent;
+    t_ent.u.type = &h_ent; h_ent.body = &b_ent; b_ent.type = entity_; b_ent.entity = &ent; b_ent.base = 0; t_ent.symbol.resolved = RESOLVED;
+    t_agg.u.type = &h_agg; h_agg.body = &b_agg; b_agg.type = set_; b_agg.base = &t_ent; t_agg.symbol.resolved = RESOLVED;
+    t_int.u.type = &h_int; h_int.body = &b_int; b_int.type = integer_; b_int.base = 0; t_int.symbol.resolved = RESOLVED;
+    v.name = &vname; vname.symbol.name = n_v; vname.symbol.resolved = 0;
+    v.type = in_shape == 0 ? &t_ent : in_shape == 1 ? &t_agg : &t_int;
+    isym.name = n_inv; v.inverse_symbol = &isym; v.inverse_attribute = 0;
+    g_attr_where = in_where; g_attr_up.name = &vname; g_attr_down.name = &vname;
+    g_rep_calls = g_rep_error_class = g_vf_calls = 0;
+    VAR_resolve_types(&v);
+    if (in_shape == 2) {
+        __CPROVER_assert(g_rep_error_class >= 1 && g_rep_errnum == INVERSE_BAD_ENTITY, "C04 an INVERSE over something that is not an entity is rejected (INVERSE_BAD_ENTITY)");
+        __CPROVER_assert(v.inverse_attribute == 0, "no inverse attribute is recorded for a bad INVERSE");
+    } else if (in_where == 1) {
+        __CPROVER_assert(g_rep_calls == 0 && v.inverse_attribute == &g_attr_up, "a well-formed INVERSE is accepted and bound to the attribute of the named entity");
+    } else {
+        __CPROVER_assert(g_rep_error_class >= 1 && g_rep_errnum == INVERSE_BAD_ATTR, "C04 an INVERSE ... FOR a name that is not an attribute of the named entity (declared or inherited; a subtype's attribute does not count) is rejected with INVERSE_BAD_ATTR");
+        __CPROVER_assert(g_rep_sym == &isym && g_rep_a1 == (const void *)n_inv, "C20 the INVERSE diagnostic is attributed to the FOR symbol and quotes the attribute name");
+        __CPROVER_assert(v.inverse_attribute == 0, "no inverse attribute is recorded for a bad INVERSE");
+    }
+    if (g_vf_calls) __CPROVER_assert(g_vf_scope == &ent && g_vf_name == n_inv && g_vf_strict == 1, "the attribute look-up is asked about the named entity, the FOR name, strictly");
+}
